@@ -66,8 +66,59 @@ def run_jobs(rep, pid, tier):
             rep.violation(oid, path, nofail=not ok)
 
 
+MEMBERS = ("CoherentRhoTerms NonCoherentRhoTerms OtherRhoTerms GammaScalarTerms OtherScalarTerms AnyNumerics is_init adaptive_step x t t_ini nsteps size_rho size_state "
+           "system step sys h h_min h_max abs_error rel_error dstate last_dstate_ptr last_estate_ptr nx nsun nrhos nscalars params state estate").split()
+
+
+def declared_members(rep):
+    """data members of class SQuIDS as declared in the header (between `class SQuIDS {` and the first constructor)"""
+    import re
+    txt = extract.strip_comments(core.repo_read("include/SQuIDS/SQuIDS.h"))
+    m = re.search(r'class\s+SQuIDS\s*\{', txt)
+    e = re.search(r'\n\s*SQuIDS\s*\(\s*\)\s*;', txt)
+    if not m or not e:
+        raise core.ExtractionError("class SQuIDS declaration not found")
+    body = txt[m.end():e.start()]
+    body = re.sub(r'struct\s+SU_state\s*\{[^}]*\}\s*;', '', body)
+    names = []
+    for st in body.split(';'):
+        st = re.sub(r'\b(private|protected|public)\s*:', '', st).strip()
+        if not st or '(' in st or st.startswith('friend') or st.startswith('#'):
+            continue
+        decl = re.sub(r'<[^<>]*(<[^<>]*>[^<>]*)*>', '', st)          # template arguments
+        parts = decl.split(',')
+        first = re.findall(r'[A-Za-z_]\w*', parts[0])
+        if first:
+            names.append(first[-1])
+        for p in parts[1:]:
+            w = re.findall(r'[A-Za-z_]\w*', p)
+            if w:
+                names.append(w[-1])
+    rep.rule("squids.members.declared", len(names))
+    return names
+
+
 def run(rep, tier):
     run_jobs(rep, "C10", tier)
+    # unbounded part: move construction / move assignment / switch setters under DFCC contracts (all member values symbolic)
+    decl = declared_members(rep)
+    if sorted(decl) != sorted(MEMBERS):
+        raise core.ExtractionError("data members of class SQuIDS differ from the contract's member list: declared-only %s, contract-only %s" %
+                                   (sorted(set(decl) - set(MEMBERS)), sorted(set(MEMBERS) - set(decl))))
+    bdir = core.builddir("C10.move")
+    ct = extract.instantiate(open(os.path.join(core.VERIF, "contracts", "squids_move_l1.c")).read(), rep)
+    rep.dropped.append("move operations: owning members (std::vector, unique_ptr, Const) -> handles, std::move(other.m) -> sq_take(&other->m); `*this` return dropped")
+    jobs = [l1.Job("move_assign", ct, "h_move_assign", enforce="SQuIDS_move_assign", includes=INC, timeout=300, function_label="SQuIDS::operator=(SQuIDS&&)", where="src/SQuIDS.cpp"),
+            l1.Job("move_ctor", ct, "h_move_ctor", enforce="SQuIDS_move_ctor", includes=INC, timeout=300, function_label="SQuIDS::SQuIDS(SQuIDS&&)", where="src/SQuIDS.cpp")]
+    for nm in ("CoherentRhoTerms", "NonCoherentRhoTerms", "OtherRhoTerms", "GammaScalarTerms", "OtherScalarTerms"):
+        jobs.append(l1.Job("Set_" + nm, ct, "h_Set_" + nm, enforce="SQuIDS_Set_" + nm, includes=INC, timeout=120, function_label="SQuIDS::Set_" + nm, where="src/SQuIDS.cpp"))
+    for res in core.pmap(lambda j: l1.run_job(j, bdir), jobs):
+        for p in l1.record(rep, res, "C10"):
+            oid = "C10.%s.%s" % (res.job.name, p.name)
+            data = dict(obligation=p.name, description=p.desc, location=p.loc, verifier="cbmc/dfcc", witness=dict(scenario=res.job.name, seed=core.SEED))
+            path = core.write_replay("C10", oid, data)
+            ok = replaylib.run_replay("C10", path, prog="solver")
+            rep.violation(oid, path, nofail=not ok)
 
 
 def replay(path):
